@@ -1,20 +1,30 @@
 /-
   C03 — GC never changes what any key reads (no loss, no resurrection).
 
-  Two layers.
-  (1) Proved for every log, every range split, every relocation map (no bound on files, records, keys):
-      replacing the records of the collected range by the records GC keeps — for a key the tree knows, exactly
-      the record the tree points at; for a key the tree does not know, only tombstones and only if the range does
-      not start at file 0 — leaves the live last record of EVERY key unchanged (`C03_gc_preserves_reads`).
-      Since a rebuilt tree is the replay of the log (C02_rebuild_is_replay), nothing older can come back to life
-      after a restart with rebuilt indexes either (`C03_no_resurrection`).
-  (2) The concrete pass `Store.gcRun` (destination choice, in-place rewrite, destination switch, truncate, source
-      clear — Model/GC.lean) is tied to the real `GCMgr.gc` by engine `seq` (resolved range, statistics, every
-      position, every data file) and to layer (1) by a per-run check in the driver (its log equals the abstract
-      pass `gcAbstract`).  The layout lemma "gcRun's files read in order are  before ++ kept ++ after" is NOT
-      proved: `C03_gcRun_statement` below is the full statement, kept visible.
+  Three layers, all proved.
+  (1) Abstract, for every log, range split, relocation map: replacing the records of the collected range by the records
+      GC keeps leaves the live last record of EVERY key unchanged (`C03_gc_preserves_reads`); a rebuilt tree is the
+      replay of the log, so nothing older comes back to life after a restart with rebuilt indexes (`C03_no_resurrection`).
+  (2) Concrete pass: `Store.gcRun` (Model/GC.lean — destination choice by `gcDst`, append to an earlier file or rewrite
+      the first file of the range in place, destination switch when the destination is full, source clear, end of
+      writing; tied to the real `GCMgr.gc` by engine `seq`: resolved range, statistics, every position, every data
+      file) run on ANY bucket satisfying the invariants of C01/C02 and over any range below the head re-establishes
+      ALL of these invariants with the SAME reference map (`C03_gc_refines`): tree and records agree with the
+      reference (so every get / meta-get / incr / delete / set afterwards replies as on the uncollected store), the
+      tree describes the last record of every key (so a restart with a rebuilt tree serves the same map), files stay
+      well formed.  Proof: the pass is a sequence of four abstract steps on a virtual log (Lemmas/GCStep.lean), each
+      preserving "the tree slot of a key describes its last record", and the concrete bookkeeping performs exactly
+      these steps (Lemmas/GCRun.lean, GCPass.lean) — no bound on files, records, keys, sizes.
+  (3) Histories: client commands, flushes, restarts of either kind and GC REQUESTS (arbitrary arguments, through
+      `gcCheckRange`; merge on/off does not exist at this level — hint merging does not touch data) in any order and
+      number: every reply equals the reference map's, for which a GC request is a no-op (`C03_history_with_gc`).
+  Hypotheses: key hash injective on the keys used (colliding keys: C13), `check_vhash` off (as C02), record sizes
+  positive and at most `dataFileMax` (an oversized record makes the real GC march past its range: outside every
+  quantifier of the property; the generator caps sizes), versions inside int32 (known finding C01/version-overflow).
 -/
 import GoBeans.Lemmas.GCLog
+import GoBeans.Lemmas.GCHistory
+import GoBeans.Props.C01
 open Store Spec StoreLemmas
 
 /-- GC preserves what every key reads (abstract log form; see the file header). -/
@@ -80,11 +90,35 @@ theorem C03_no_resurrection (hash : Key → Nat) (K : Key → Prop) (hInj : InjO
       · simp [hv, hw] at hl
       · simp [itemOfLast, hv, hw]
 
-/-- FULL statement about the concrete pass (not proved — the layout lemma is missing; checked per run by the
-    driver as `gc-abstraction`, and against the real store by engine `seq`). -/
-def C03_gcRun_statement (hash : Key → Nat) (cfg : Store.Cfg) : Prop :=
-  ∀ (b : Bucket) (s e : Nat), s ≤ e → e < b.head →
-    ((gcRun hash cfg b s e).1.log.map (·.2)) = gcAbstract hash b s e
+/-- The concrete pass refines "nothing happened": every invariant of the bucket is re-established with the SAME
+    reference map `m` — hence every later reply, a restart with loaded or rebuilt tree, and a further pass behave as
+    on the uncollected store. -/
+theorem C03_gc_refines (hash : Key → Nat) (K : Key → Prop) (cfg : Store.Cfg) (hInj : InjOn hash K) {n : Nat} {b : Bucket} {m : KV}
+    (inv : Inv hash K n b m) (lr : LastRec hash K b) (w : WF cfg b) (nz : NoZero b)
+    (begin stop : Nat) (hbs : begin ≤ stop) (hs : stop < b.head) :
+    Inv hash K n (gcRun hash cfg b begin stop).1 m ∧ LastRec hash K (gcRun hash cfg b begin stop).1
+    ∧ WF cfg (gcRun hash cfg b begin stop).1 ∧ NoZero (gcRun hash cfg b begin stop).1
+    ∧ (gcRun hash cfg b begin stop).1.head = b.head :=
+  gcRun_refines hash K cfg hInj inv lr w nz begin stop hbs hs
+
+/-- what one key reads right after a pass: exactly what it read before -/
+theorem C03_get_after_gc (hash : Key → Nat) (K : Key → Prop) (cfg : Store.Cfg) (hInj : InjOn hash K) {n : Nat} {b : Bucket} {m : KV}
+    (inv : Inv hash K n b m) (lr : LastRec hash K b) (w : WF cfg b) (nz : NoZero b)
+    (begin stop : Nat) (hbs : begin ≤ stop) (hs : stop < b.head) (k : Key) (hk : K k) :
+    (Store.step hash cfg (gcRun hash cfg b begin stop).1 (.get k)).2.1 = (Store.step hash cfg b (.get k)).2.1
+    ∧ (Store.step hash cfg (gcRun hash cfg b begin stop).1 (.info k)).2.1 = (Store.step hash cfg b (.info k)).2.1 := by
+  have i1 := (gcRun_refines hash K cfg hInj inv lr w nz begin stop hbs hs).1
+  exact ⟨by rw [(get_refines hash K cfg i1 k hk).1, (get_refines hash K cfg inv k hk).1],
+         by rw [(info_refines hash K cfg i1 k hk).1, (info_refines hash K cfg inv k hk).1]⟩
+
+/-- FULL sequential statement: histories of client commands, flushes, restarts of either kind and GC requests with
+    arbitrary arguments, in any order: every reply equals the reference map's (which ignores GC). -/
+theorem C03_history_with_gc (hash : Key → Nat) (K : Key → Prop) (hInj : InjOn hash K) (cfg : Store.Cfg)
+    (hcv : cfg.checkVHash = false) (R : Nat) (ops : List HOp) (hops : ∀ op ∈ ops, HOpOK K cfg R op)
+    (hbound : R + ops.length < 2147483647) :
+    (hrun hash cfg {} ops).2 = (hspec { checkVHash := cfg.checkVHash } [] ops).2
+    ∧ HInv hash K cfg (R + ops.length) (hrun hash cfg {} ops).1 (hspec { checkVHash := cfg.checkVHash } [] ops).1 :=
+  hrun_refines hash K cfg hcv hInj R ops R {} [] (hinv_mono hash K (Nat.zero_le R) (hinv_init hash K cfg)) (Nat.le_refl R) hbound hops
 
 /-! Non-vacuity: a three-file log where the collected middle file holds a superseded value, the current value of
     another key and a tombstone; the live view is unchanged and the superseded record is gone. -/
@@ -97,3 +131,27 @@ def exMid : List (Pos × Rec) := [(⟨1, 0⟩, rA1), (⟨1, 256⟩, rBd)]
 def exAfter : List (Pos × Rec) := [(⟨2, 0⟩, rA2)]
 example : exMid.filter (gcKeep (fun k => k == [97] || k == [98]) true (exBefore ++ exMid ++ exAfter)) = [(⟨1, 256⟩, rBd)] := by decide +kernel
 example : liveRec [98] (exBefore ++ exMid ++ exAfter) = none ∧ liveRec [97] (exBefore ++ exMid ++ exAfter) = some rA2 := by decide +kernel
+
+/-! Non-vacuity of the history theorem: writes over three small files, a pass over file 0 (both its records are
+    superseded: the file goes), reads, a restart with rebuilt tree, a second request resolved from `nextGC`. -/
+def exK3 : Key → Prop := fun k => k = [97] ∨ k = [98] ∨ k = [99]
+def exCfg3 : Store.Cfg := { dataFileMax := 512, bodyMax := 100 }
+def exOps3 : List HOp := [
+  .op (.set [97] [1] 0 0 10 256), .op (.set [98] [2] 0 0 10 256), .op (.set [97] [3] 0 0 10 256), .op (.delete [98] 256 10),
+  .op (.set [99] [4] 0 0 10 256), .op (.get [97]), .gc { start := 0, stop := -1, noGCDays := 0, now := 100000 },
+  .op (.get [97]), .op (.get [98]), .op (.reopen false), .op (.get [97]), .op (.get [98]), .op (.get [99]),
+  .gc { start := -1, stop := -1, noGCDays := 0, now := 100000 }, .op (.info [99])]
+example : InjOn exHash exK3 := by
+  intro a b ha hb _; rcases ha with rfl | rfl | rfl <;> rcases hb with rfl | rfl | rfl <;> simp_all [exHash]
+example : ∀ op ∈ exOps3, HOpOK exK3 exCfg3 0 op := by
+  intro op h; simp [exOps3] at h
+  rcases h with rfl | rfl | rfl | rfl | rfl | rfl | rfl | rfl | rfl | rfl | rfl | rfl | rfl | rfl | rfl <;>
+    simp [HOpOK, OpOK3, OpOK, exK3, exCfg3]
+example : (hrun exHash exCfg3 {} exOps3).2 =
+    [.stored, .stored, .stored, .deleted, .stored, .value 0 [3], .value 0 [3], .miss, .value 0 [3], .miss, .value 0 [4],
+     .info 1 (Ref.vhash [4]) 0 1 (some 10)] := by decide +kernel
+-- the first request resolves to file 0 and the pass removes both (superseded) records of it
+example : (gcCheckRange exCfg3 (hrun exHash exCfg3 {} (exOps3.take 6)).1 { start := 0, stop := -1, noGCDays := 0, now := 100000 }).toOption
+    = some (0, 0) := by decide +kernel
+example : ((hrun exHash exCfg3 {} (exOps3.take 6)).1.log.length, (hrun exHash exCfg3 {} (exOps3.take 7)).1.log.length) = (5, 3) := by
+  decide +kernel
